@@ -22,6 +22,9 @@ type handlerEntry struct {
 }
 
 type handlerMap struct {
+	pkg     *packages.Package
+	depth   int
+	bound   map[types.Object]ast.Expr // parameters of the registration helper being interpreted
 	Var     *types.Var
 	Entries map[string]*handlerEntry
 	Order   []string
@@ -52,7 +55,7 @@ func isHandlerMapType(t types.Type) bool {
 }
 
 func interpretHandlers(p *packages.Package) *handlerMap {
-	h := &handlerMap{Entries: map[string]*handlerEntry{}}
+	h := &handlerMap{Entries: map[string]*handlerEntry{}, pkg: p}
 	info := p.TypesInfo
 	// the map variable
 	for _, name := range p.Types.Scope().Names() {
@@ -164,7 +167,9 @@ func (h *handlerMap) stmt(info *types.Info, st ast.Stmt, locals map[types.Object
 					h.errf("loop registration key is not the loop variable")
 					continue
 				}
+				h.bound = locals
 				e := h.target(info, as.Rhs[0], alias)
+				h.bound = nil
 				if e == nil {
 					h.errf("loop registration value is not a forwarding closure")
 					continue
@@ -178,11 +183,64 @@ func (h *handlerMap) stmt(info *types.Info, st ast.Stmt, locals map[types.Object
 			}
 			h.errf("unmodelled statement in handler registration loop")
 		}
+	case *ast.ExprStmt:
+		// registerX(list, handler): a same-package helper whose body registers handlers is
+		// interpreted with its parameters bound to the arguments
+		if call, ok := s.X.(*ast.CallExpr); ok {
+			if fn, ok := calleeOf(info, call).(*types.Func); ok && fn.Pkg() == h.pkg.Types {
+				if hd := funcDeclOf(h.pkg, fn); hd != nil && hd.Body != nil && hd.Recv == nil && mentions(info, hd.Body, h.Var) {
+					if h.depth >= 3 || hd.Type.Params == nil {
+						h.errf("registration helper %s nested too deep", fn.Name())
+						return
+					}
+					inner := map[types.Object]ast.Expr{}
+					i := 0
+					for _, fld := range hd.Type.Params.List {
+						for _, nm := range fld.Names {
+							if i < len(call.Args) {
+								a := call.Args[i]
+								if id, ok := a.(*ast.Ident); ok {
+									if def, ok := locals[info.Uses[id]]; ok {
+										a = def
+									}
+								}
+								inner[info.Defs[nm]] = a
+							}
+							i++
+						}
+					}
+					if i != len(call.Args) {
+						h.errf("registration helper %s called with a variadic or mismatched argument list", fn.Name())
+						return
+					}
+					h.depth++
+					for _, bs := range hd.Body.List {
+						h.stmt(info, bs, inner, isMap)
+					}
+					h.depth--
+					return
+				}
+			}
+		}
+		if mentions(info, st, h.Var) {
+			h.errf("unmodelled statement touching the handler map")
+		}
 	default:
 		if mentions(info, st, h.Var) {
 			h.errf("unmodelled statement touching the handler map")
 		}
 	}
+}
+
+func funcDeclOf(p *packages.Package, fn *types.Func) *ast.FuncDecl {
+	for _, f := range p.Syntax {
+		for _, d := range f.Decls {
+			if fd, ok := d.(*ast.FuncDecl); ok && p.TypesInfo.Defs[fd.Name] == fn {
+				return fd
+			}
+		}
+	}
+	return nil
 }
 
 // sliceToMap handles X where X := lo.SliceToMap(S, func(op string) (string, T) { localOp := op; return localOp, closure })
@@ -263,6 +321,16 @@ func (h *handlerMap) target(info *types.Info, e ast.Expr, mnemonicVars map[types
 			return nil
 		}
 		fn, ok := calleeOf(info, call).(*types.Func)
+		if !ok {
+			// a function-typed parameter of the registration helper, bound to a function name
+			if id, isId := ast.Unparen(call.Fun).(*ast.Ident); isId {
+				if def, has := h.bound[info.Uses[id]]; has {
+					if did, isId := ast.Unparen(def).(*ast.Ident); isId {
+						fn, ok = info.Uses[did].(*types.Func)
+					}
+				}
+			}
+		}
 		if !ok {
 			return nil
 		}
